@@ -1,7 +1,7 @@
 (* Evaluation of the server model on a correspondence case (see Model/ServerRender.v for the
    programmable handler, the policies and the rendering). *)
 From Coq Require Import NArith List Bool Arith String Ascii.
-From Rodbus Require Import Base.Outcome Base.Show Base.ServerTypes Model.Server Model.ServerRender.
+From Rodbus Require Import Base.Outcome Base.Show Base.ServerTypes Base.ServerRun Model.Server Model.ServerRun Model.ServerRender.
 Import ListNotations.
 Local Open Scope N_scope.
 
@@ -23,7 +23,13 @@ Definition show_end (e : session_end) : string :=
 
 
 Definition run_model (c : case) : string :=
-  let '(l, units, a, frames) := c in
-  let '(rs, _, log, e) := session prog l (auth_model a) units frames in
+  let '(l, m, hs, a, frames) := c in
+  let '(rs, _, log, e) := session prog l (auth_model a) (mkunits m hs) frames in
   show_replies rs ++ "|" ++ show_log log ++ "|" ++ show_end e.
 Definition run_both (c : case) : string := run_model c ++ "#" ++ run_spec c.
+
+Definition run_model_ev (c : ecase) : string :=
+  let '(l, m, hs, a, evs) := c in
+  let '(ws, _, log, _, e) := session_run prog l (auth_model a) (mkunits m hs) 0 evs in
+  show_replies ws ++ "|" ++ show_log log ++ "|" ++ show_run_end (fun x => show_end (SError x)) e.
+Definition run_both_ev (c : ecase) : string := run_model_ev c ++ "#" ++ run_spec_ev c.
